@@ -593,3 +593,87 @@ def cartesian_block_symmetry_factor_in_a_quarter_core(i: int, j: int, k: int):
         assert s == (4.0 if onX and onY else 2.0 if onX or onY else 1.0), "cut by two / one / no boundary line"
         assert cartesian_block_in_core(i, j, k, "quarter core " + bc).getSymmetryFactor() == 1.0, "boundary between assemblies: nothing is cut"
     assert new(CartesianBlock, name="b", parent=None, spatialLocator=None, _children=[]).getSymmetryFactor() == 1.0
+
+
+# ----------------------------------------------------------------------------- component volume; two levels
+class AreaShape(Component):
+    """probe: a real Component whose shape-specific cross-section is GIVEN (stand-in for the getComponentArea of the shape
+    classes, covered by C03); getArea / getVolume / computeVolume / clearCache are the real Component text"""
+
+    def getComponentArea(self, cold=False, Tc=None):
+        return self.area
+
+    def containsVoidMaterial(self):
+        return self.void
+
+    def containsSolidMaterial(self):
+        return not self.void
+
+
+class HeightBlock(Block):
+    """a Block whose children need its height only (Block.getHeight is real: p.height)"""
+
+
+@lemma(gen={"area": (0.0, 50.0), "other": (0.0, 20.0), "h": (0.1, 100.0)})
+def component_volume_is_area_times_block_height(area: float, other: float, h: float, void: bool):
+    """Component.getVolume / _updateVolume / computeVolume / getArea (incl. the modArea correction) / clearCache: an
+    uncached volume is cross-section x height of the block, is remembered, and is recomputed after clearCache."""
+    assume(h > 0)
+    blk = new(HeightBlock, name="b", _children=[], p=new(PMap, height=h), parent=None, cached={}, derivedMustUpdate=False)
+    c = new(AreaShape, name="c", p=new(PMap, volume=None, modArea=None), parent=blk, cached={}, area=area, void=void, material="m")
+    d = new(AreaShape, name="d", p=new(PMap, volume=None, modArea=(c, "sub")), parent=blk, cached={}, area=other, void=void, material="m")
+    e = new(AreaShape, name="e", p=new(PMap, volume=None, modArea=(c, "add")), parent=blk, cached={}, area=other, void=void, material="m")
+    try:
+        v = c.getVolume()
+    except ArithmeticError:
+        assert area < 0 and not void, "only a solid with negative cross-section is refused"
+        return
+    assert eq(v, area * h), "volume = cross-section x height"
+    assert eq(c.p.volume, v) and eq(c.getVolume(), v), "remembered"
+    for comp, a2 in ((e, other + area), (d, other - area)):
+        try:
+            assert eq(comp.getVolume(), a2 * h), "a subtracted / added cross-section enters the volume"
+        except ArithmeticError:
+            assert a2 < 0 and not void
+    c.area = 2.0 * area
+    assert eq(c.getVolume(), v), "cached until invalidated"
+    c.clearCache()
+    assert c.p.volume is None and blk.derivedMustUpdate is True, "invalidation also tells the block to update a derived shape"
+    assert eq(c.getVolume(), 2.0 * area * h), "recomputed from the current dimensions"
+    lone = new(AreaShape, name="x", p=new(PMap, volume=None, modArea=None), parent=None, cached={}, area=area, void=void, material="m")
+    try:
+        lone.getVolume()
+        ok = True
+    except (AttributeError, ValueError):
+        ok = False
+    assert not ok, "a 2-D component without a block has no volume: refused loudly"
+
+
+GEN2 = dict(GEN3, s1=[1.0, 2.0, 3.0], s2=[1.0, 2.0, 3.0], k=(1, 2))
+
+
+@lemma(overrides=OV, stubs=ST, gen=GEN2)
+def assembly_of_cut_blocks_accounts_like_its_leaves(k: int, s1: float, s2: float, a1: float, b1: float, v1: float, b2: float, c2: float, v2: float, a3: float, b3: float, c3: float, v3: float):
+    """Two levels: a Composite (assembly) of k = 1..2 Blocks with ARBITRARY symmetry factors s1, s2; block 1 holds two
+    Components, block 2 one.  Volume, mass (total / nuclide / element), number density and atoms at the top equal the sums
+    over the blocks AND the naive walk over the leaves with each leaf volume reduced by its block's factor."""
+    weights_positive()
+    assume(v1 > 0 and v2 > 0 and v3 > 0 and s1 > 0 and s2 > 0)
+    k = choose(k, 1, 2)
+    kids, nd, vol = three_children(3, a1, b1, v1, b2, c2, v2, a3, b3, c3, v3)
+    blocks = [composite(CutBlock, kids[:2], sf=s1), composite(CutBlock, kids[2:], sf=s2)][:k]
+    asm = composite(Composite, blocks)
+    leaves = [(nd[0], v1 / s1), (nd[1], v2 / s1), (nd[2], v3 / s2)][: (2 if k == 1 else 3)]
+    V = sum(v for _, v in leaves)
+    assert eq(asm.getVolume(), V), "volume = sum over the leaves of volume / symmetry factor"
+    assert eq(asm.getVolume(), sum(b.getVolume() for b in blocks)), "= sum of the blocks' volumes"
+    for sel, nucs in ((None, ["A", "B", "C"]), ("C", ["C"]), ("E", ["A", "B"])):
+        m = asm.getMass(sel)
+        assert eq(m, sum(b.getMass(sel) for b in blocks)), "mass = sum of the blocks' masses"
+        assert eq(m, sum(rho_of(n, nucs) * v for n, v in leaves)), "= density x reduced volume over the leaves"
+    for n in ("A", "B", "C"):
+        atoms = sum(d[n] * v for d, v in leaves)
+        assert eq(asm.getNumberDensity(n) * V, atoms), "number density = volume-weighted mean over the modelled volumes"
+        assert eq(asm.getNumberOfAtoms(n), sum(b.getNumberOfAtoms(n) for b in blocks)), "atoms agree between the levels"
+        assert eq(asm.getNumberOfAtoms(n), atoms / units.CM2_PER_BARN)
+    assert eq(asm.density() * asm.getVolume(), asm.getMass()), "mass = density x volume at the top"
